@@ -39,10 +39,13 @@ type World struct {
 	P4            *fakep4.Server // the switch of the UP4 datapath (nil on BESS)
 	p4n           *p4names
 	p4Seen        int // updates already reported in a trace line
+	p4PktSeen     int // packet-outs already reported
 	// P4Fault, when set, makes the switch fail one write of the next request (one shot)
 	P4Fault  *P4FaultPlan
 	LastRpcs int // Write RPCs the switch received during the last request
 	conc     *concRec
+	// UeBySeid: UE address of each session (C13 on UP4: a datapath report is a digest carrying the UE address)
+	UeBySeid map[uint64]uint32
 	Agent         *agent.Agent
 	Peers         map[string]*pfcpx.Peer
 	UpTok         *pfcpx.Toks
@@ -104,7 +107,7 @@ func NewWorld(dir, agentBin, tracePath string, cfg agent.Cfg, run int) (*World, 
 
 	w := &World{Dir: dir, AgentBin: agentBin, Cfg: cfg, Peers: map[string]*pfcpx.Peer{}, Run: run,
 		UpTok: pfcpx.NewToks("u"), CpTok: pfcpx.NewToks("r"), markers: make(chan marker, 1024),
-		RespWait: 3 * time.Second, Quiet: 4 * time.Millisecond}
+		RespWait: 3 * time.Second, Quiet: 4 * time.Millisecond, UeBySeid: map[uint64]uint32{}}
 	w.Bess = fakebess.New()
 	w.t0 = time.Now()
 
